@@ -99,3 +99,6 @@ ROUTER_TRUST = [
     'for event, including the predicted wake-up bits, by the acceptor on every implementation trace',
     'the Future/Waker contract of the executor (tokio) is assumed: a task is re-polled after its waker fires',
 ]
+
+
+RR_RULE = '(rr) histories of the real reqrep::Topic future: 4-80 random steps of {poll, queue a requestor (sink+stream), queue a replier, fire a kept waker, close the channel}; requestor streams yield requests with forged / junk / absent routing tags, colliding req_ids and non-message frames; the mock replier answers received requests out of order and emits replies with missing, unknown (>= 10^6), malformed or unsolicited tags and non-message frames; replier registrations arrive in bursts (0-3 extra repliers); per-case answer profile as for (ps); final phase quiesce|close|none under the wake-driven executor; non-trivial = history with at least one Pending or Err answer from a sink'
